@@ -27,8 +27,10 @@ RE_PROP = re.compile(r"Error: (Action|Temporal) propert(y|ies) (.*)(is|were) vio
 
 
 def _java(spec, cfg, metadir, workers, extra, env, timeout, xmx="3g", gc="-XX:+UseSerialGC", jvm=()):
+    os.makedirs(metadir, exist_ok=True)
     cmd = [
-        "java", gc, "-Xss256m", f"-Xmx{xmx}", "-XX:-UsePerfData", *jvm, "-cp", JARS, "tlc2.TLC",
+        # (TLC's own temporary directories go below the metadir, which is removed afterwards, not to /tmp)
+        "java", gc, "-Xss256m", f"-Xmx{xmx}", "-XX:-UsePerfData", f"-Djava.io.tmpdir={metadir}", *jvm, "-cp", JARS, "tlc2.TLC",
         "-workers", str(workers), "-metadir", metadir, "-noGenerateSpecTE",
         "-config", cfg,
     ] + list(extra) + [spec]
